@@ -127,8 +127,11 @@ func (d *Document) UpdateTOC() error {
 	}
 
 	// 处理SDT类型的TOC
-	// 使用默认TOC配置
+	// 使用默认TOC配置，但保留生成目录时请求的最大级别
 	config := DefaultTOCConfig()
+	if tocSDT.tocMaxLevel > 0 {
+		config.MaxLevel = tocSDT.tocMaxLevel
+	}
 
 	// 重新收集标题信息
 	entries := d.collectHeadings(config.MaxLevel)
@@ -644,6 +647,7 @@ func (d *Document) createWordFieldTOC(config *TOCConfig, entries []TOCEntry) []i
 		Content: &SDTContent{
 			Elements: []interface{}{},
 		},
+		tocMaxLevel: config.MaxLevel,
 	}
 
 	// 添加目录标题段落
